@@ -338,6 +338,24 @@ def replay_record(p):
         n_in = p.get('n_in')
         if n_in is None:
             n = max(1, min(int(p['n_req']), 4))
+            for nsb in (1, 2, 3):
+                be, src = _real_backend()
+                be.num_subblocks = nsb
+                drawn = [0]
+                orig = src.get_samples
+
+                def counted(num, orig=orig, drawn=drawn):
+                    drawn[0] += num
+                    return orig(num)
+                src.get_samples = counted
+                t_before = src.t_start
+                be.record(os.path.join(d, f'a{nsb}'), num_blocks=n, length_mode='num_blocks', header_dict={}, verbose=False, load_template=False)
+                want = n * be.samples_per_block * be.num_branches + be.num_taps * be.num_branches
+                if drawn[0] != want:
+                    msgs.append(f"num_subblocks={nsb}: {drawn[0]} samples drawn from the antenna for {n} blocks, expected n*spb*P + taps*P = {want}")
+                if abs((src.t_start - t_before) - want / src.sample_rate) > 1e-9:
+                    msgs.append(f"num_subblocks={nsb}: antenna clock advanced by {src.t_start - t_before}, expected {want / src.sample_rate}")
+            be, src = _real_backend()
             be.record(os.path.join(d, 'a'), num_blocks=n, length_mode='num_blocks', header_dict={}, verbose=False, load_template=False)
             tgt, want_n = be, n
         else:
@@ -436,6 +454,8 @@ def main():
                       'delta model for the duration -> blocks conversion with the 1e-9 boundary tolerance of the statement']
     jobs = []
     space = [(1, 2, 8, 2, 8, 2), (2, 2, 8, 3, 4, 1), (1, 1, 4, 2, 8, 3), (3, 2, 4, 4, 16, 5), (1, 1, 8, 1, 2, 1), (4, 2, 8, 8, 64, 7)]
+    if ck.thorough:
+        space = space + [(na, npol, bits, taps, P, nc) for na in (1, 2) for npol in (1, 2) for bits in (8, 4) for (taps, P, nc) in ((2, 4, 2), (8, 1024, 64), (4, 32, 16))]
     for cfg in space:
         jobs.append(('job_ctor', cfg))
     for nant, nc in ((1, 2), (2, 3), (4, 1)):
